@@ -2055,25 +2055,35 @@ class Parallel(Logger):
         # Following flag prevents double calls to `backend.stop_call`.
         self._calling = True
 
-        iterator = iter(iterable)
-        pre_dispatch = self.pre_dispatch
+        try:
+            iterator = iter(iterable)
+            pre_dispatch = self.pre_dispatch
 
-        if pre_dispatch == "all":
-            # prevent further dispatch via multiprocessing callback thread
+            if pre_dispatch == "all":
+                # prevent further dispatch via multiprocessing callback thread
+                self._original_iterator = None
+                self._pre_dispatch_amount = 0
+            else:
+                self._original_iterator = iterator
+                if hasattr(pre_dispatch, "endswith"):
+                    pre_dispatch = eval_expr(
+                        pre_dispatch.replace("n_jobs", str(n_jobs))
+                    )
+                self._pre_dispatch_amount = pre_dispatch = int(pre_dispatch)
+
+                # The main thread will consume the first pre_dispatch items
+                # and the remaining items will later be lazily dispatched by
+                # async callbacks upon task completions.
+
+                # TODO: this iterator should be batch_size * n_jobs
+                iterator = itertools.islice(iterator, self._pre_dispatch_amount)
+        except BaseException:
+            # Nothing was dispatched: release the backend and leave the
+            # instance in a state where it can be called again.
             self._original_iterator = None
-            self._pre_dispatch_amount = 0
-        else:
-            self._original_iterator = iterator
-            if hasattr(pre_dispatch, "endswith"):
-                pre_dispatch = eval_expr(pre_dispatch.replace("n_jobs", str(n_jobs)))
-            self._pre_dispatch_amount = pre_dispatch = int(pre_dispatch)
-
-            # The main thread will consume the first pre_dispatch items and
-            # the remaining items will later be lazily dispatched by async
-            # callbacks upon task completions.
-
-            # TODO: this iterator should be batch_size * n_jobs
-            iterator = itertools.islice(iterator, self._pre_dispatch_amount)
+            self._running = False
+            self._terminate_and_reset()
+            raise
 
         # Use a caching dict for callables that are pickled with cloudpickle to
         # improve performances. This cache is used only in the case of
